@@ -57,6 +57,24 @@ def ob_helper(which, k, j, mode="serial"):
     return f
 
 
+def ob_greedy_nan():
+    """a candidate whose cost is NaN (objective undefined there) never replaces an agent with a defined cost"""
+    def f():
+        with env():
+            opt = Scripted(config())
+            inc = agent("inc", sym.ext_real("inc"))
+            got = opt._greedy_select_agent(inc, agent("ch", float("nan")))
+            if got.position != ["inc"]:
+                return Failure("greedy:a-NaN-candidate-replaces-a-valid-agent", inc=inc.cost)
+            opt._population = [inc, agent("b", sym.real("b"))]
+            best = best_of(opt._population)
+            opt._greedy_select_population([agent("n1", float("nan")), agent("n2", float("nan"))])
+            if not best_of(opt._population) == best:
+                return Failure("greedy_population:NaN-candidates-lose-the-best", before=best, after=costs_of(opt._population))
+            return OK
+    return f
+
+
 def ob_greedy_override(cname, cls):
     def f():
         st = stubs.Stream("np")
@@ -133,6 +151,7 @@ def obligations(tier):
             obs.append(Ob(f"helper[{which},k={k},j={j}]", ob_helper(which, k, j), 600))
     for mode in ("thread", "process"):
         obs.append(Ob(f"helper[greedy,k=2,j=2,{mode}]", ob_helper("greedy", 2, 2, mode), 600))
+    obs.append(Ob("greedy_nan_candidate", ob_greedy_nan(), 120))
     for cname, cls in greedy_classes():
         if cls is not None:
             obs.append(Ob(f"greedy_override[{cname}]", ob_greedy_override(cname, cls), 60))
